@@ -135,6 +135,9 @@ func c07RestCases() []c07Case {
 		}
 	}
 	add("query-kind:repeated-mix", "Pure", "/v1/pure/n", "pv.double_list=1&pv.double_list=NaN&pv.enum_list=ENUM_VALUE&pv.enum_list=0&nums=1&nums=-2", "", nil)
+	// repeated scalar well-known types
+	add("query-kind:repeated-wrapper", "Pure", "/v1/pure/n", "pv.double_value_list=1.5&pv.double_value_list=-2", "", nil)
+	add("query-kind:repeated-wrapper-one", "Pure", "/v1/pure/n", "pv.double_value_list=1.5", "", nil)
 	// bodies
 	add("body-message-field", "Idem", "/v1/idem/k", "num=4&tags=q", "application/json", []byte(`{"name":"c","nums":[1,2],"child":{"raw":"AP8="}}`))
 	add("body-repeated-scalar", "Nested", "/v1/nested/cn:act", "num=9", "application/json", []byte(`["a","","ü"]`))
